@@ -4,6 +4,15 @@
    the allowlist, hand the valid ones to the router as ONE batch, report throughput, repeat
    until the channel is closed.
 
+   A System runs MANY passes (one per interval, or explicit Reprovide calls); the key provider
+   is invoked again at the start of every pass (SetKeyProvider may replace it in between).
+   The model therefore runs a `plan` of further passes on the same system and states the
+   property for EVERY pass: each pass announces the full allowed set of ITS stream again; the
+   loop's carry-over map and the router batches start empty.  The only state that survives a
+   pass is the throughput report (documented: the counter keeps counting until the threshold
+   is met; a callback that returned false is never called again -- and then no longer lowers
+   the batch size of later passes).
+
    Keys are small integers; cfg.bad is the set of keys whose CID the allowlist rejects.
    Ideal behaviour for a configured limit of 0 (MaxBatchSize(0) or a throughput threshold of
    0): the pass must still terminate and announce everything, so the effective batch size is
@@ -14,7 +23,8 @@ CONSTANTS Keys,      \* universe of keys
           MaxLen,    \* longest key stream (model checking)
           BatchVals, \* configured MaxBatchSize values explored
           ThrVals,   \* throughput thresholds explored
-          BadSets    \* sets of rejected keys explored
+          BadSets,   \* sets of rejected keys explored
+          PlanModes  \* how the passes after the first get their stream: subset of {"same", "set", "setnil"}
 
 Unlimited == 9999   \* stands for math.MaxUint (default MaxBatchSize)
 
@@ -27,8 +37,12 @@ VARIABLES input,    \* the whole key stream of this pass (never changes)
           pc,       \* "read" | "validate" | "provide" | "done"
           keys,     \* batch being handed to the router
           batches,  \* sequence of batches given to the router so far (each a set)
-          cbOn, cbCount, cbCalls   \* throughput callback state / calls [n, complete]
-vars == <<input, cfg, stream, cids, got, closed, pc, keys, batches, cbOn, cbCount, cbCalls>>
+          cbOn, cbCount, cbCalls,  \* throughput callback state / calls [n, complete] of this pass
+          pass,     \* number of the current pass (1, 2, ...)
+          plan,     \* the passes after the first: sequence of [how, arg]  (never changes)
+          lowered,  \* the throughput report was active when this pass started (it then bounds the batch size)
+          hist      \* completed passes: [stream, batches, cb]
+vars == <<input, cfg, stream, cids, got, closed, pc, keys, batches, cbOn, cbCount, cbCalls, pass, plan, lowered, hist>>
 
 ToSet(s) == {s[i] : i \in 1..Len(s)}
 SeqsUpTo(S, n) == UNION {[1..k -> S] : k \in 0..n}
@@ -37,36 +51,49 @@ Min(a, b) == IF a < b THEN a ELSE b
 \* the batch size the loop uses: a router without ProvideMany forces 1; an active throughput
 \* report lowers it to its threshold; a resulting 0 is treated as 1 (see header)
 Configured == LET base == IF cfg.many THEN cfg.batch ELSE 1
-              IN  IF cfg.hasThr /\ cfg.thr < base THEN cfg.thr ELSE base
+              IN  IF lowered /\ cfg.thr < base THEN cfg.thr ELSE base
 Eff == IF Configured = 0 THEN 1 ELSE Configured
 
 Cfgs == [batch : BatchVals \cup {Unlimited}, many : BOOLEAN, hasThr : BOOLEAN, thr : ThrVals,
          cbStop : BOOLEAN, bad : BadSets]
 
-Start(s, c) ==
+Start(s, c, pl) ==
     /\ input = s /\ stream = s /\ cfg = c
     /\ cids = {} /\ got = 0 /\ closed = FALSE /\ pc = "read" /\ keys = {} /\ batches = <<>>
     /\ cbOn = c.hasThr /\ cbCount = 0 /\ cbCalls = <<>>
+    /\ pass = 1 /\ plan = pl /\ lowered = c.hasThr /\ hist = <<>>
 
-Init == \E s \in SeqsUpTo(Keys, MaxLen), c \in Cfgs : (c.hasThr \/ (c.thr = 0 /\ ~c.cbStop)) /\ Start(s, c)
+\* the stream installed by SetKeyProvider before the second pass: other keys (so other
+\* allowed/rejected ones), one key more
+Alt(s) == [k \in 1..Len(s) |-> (s[k] % Cardinality(Keys)) + 1] \o <<1>>
+\* one further pass: the same key provider is invoked again ("same"), SetKeyProvider(other)
+\* ("set"), or SetKeyProvider(nil), which is documented to be ignored ("setnil").  To bound the
+\* case count the Set variants are explored for the configurations without throughput report.
+Plans(s, c) == {<<[how |-> m, arg |-> IF m = "set" THEN Alt(s) ELSE <<>>]>> :
+                    m \in {m \in PlanModes : m = "same" \/ ~c.hasThr}}
+               \cup (IF PlanModes = {} THEN {<<>>} ELSE {})
+
+Init == \E s \in SeqsUpTo(Keys, MaxLen), c \in Cfgs :
+           /\ c.hasThr \/ (c.thr = 0 /\ ~c.cbStop)
+           /\ \E pl \in Plans(s, c) : Start(s, c, pl)
 
 ReadOne ==
     /\ pc = "read" /\ got < Eff /\ stream # <<>>
     /\ cids' = cids \cup {Head(stream)} /\ stream' = Tail(stream) /\ got' = got + 1
-    /\ UNCHANGED <<input, cfg, closed, pc, keys, batches, cbOn, cbCount, cbCalls>>
+    /\ UNCHANGED <<input, cfg, closed, pc, keys, batches, cbOn, cbCount, cbCalls, pass, plan, lowered, hist>>
 ReadClosed ==
     /\ pc = "read" /\ got < Eff /\ stream = <<>>
     /\ closed' = TRUE /\ pc' = "validate"
-    /\ UNCHANGED <<input, cfg, stream, cids, got, keys, batches, cbOn, cbCount, cbCalls>>
+    /\ UNCHANGED <<input, cfg, stream, cids, got, keys, batches, cbOn, cbCount, cbCalls, pass, plan, lowered, hist>>
 ReadFull ==
     /\ pc = "read" /\ got = Eff
     /\ pc' = "validate"
-    /\ UNCHANGED <<input, cfg, stream, cids, got, closed, keys, batches, cbOn, cbCount, cbCalls>>
+    /\ UNCHANGED <<input, cfg, stream, cids, got, closed, keys, batches, cbOn, cbCount, cbCalls, pass, plan, lowered, hist>>
 Validate ==
     /\ pc = "validate"
     /\ keys' = cids \ cfg.bad /\ cids' = cids \cap cfg.bad /\ got' = 0
     /\ pc' = IF keys' = {} THEN (IF closed THEN "done" ELSE "read") ELSE "provide"
-    /\ UNCHANGED <<input, cfg, stream, closed, batches, cbOn, cbCount, cbCalls>>
+    /\ UNCHANGED <<input, cfg, stream, closed, batches, cbOn, cbCount, cbCalls, pass, plan, lowered, hist>>
 Provide ==
     /\ pc = "provide"
     /\ batches' = Append(batches, keys) /\ keys' = {}
@@ -76,10 +103,22 @@ Provide ==
           /\ cbOn' = IF fire /\ cfg.cbStop THEN FALSE ELSE cbOn
           /\ cbCount' = IF fire THEN 0 ELSE n
     /\ pc' = IF closed THEN "done" ELSE "read"
-    /\ UNCHANGED <<input, cfg, stream, cids, got, closed>>
+    /\ UNCHANGED <<input, cfg, stream, cids, got, closed, pass, plan, lowered, hist>>
+
+\* Reprovide is called again on the same system.  Everything the loop works with is fresh; the
+\* throughput state (cbOn, cbCount) is what the previous pass left.
+NextPassWith(how, arg) ==
+    /\ pc = "done"
+    /\ pass' = pass + 1
+    /\ hist' = Append(hist, [stream |-> input, batches |-> batches, cb |-> cbCalls])
+    /\ input' = (IF how = "set" THEN arg ELSE input) /\ stream' = input'
+    /\ cids' = {} /\ got' = 0 /\ closed' = FALSE /\ pc' = "read" /\ keys' = {} /\ batches' = <<>>
+    /\ cbCalls' = <<>> /\ lowered' = cbOn
+    /\ UNCHANGED <<cfg, cbOn, cbCount, plan>>
+NextPass == pass <= Len(plan) /\ NextPassWith(plan[pass].how, plan[pass].arg)
 
 Step == ReadOne \/ ReadClosed \/ ReadFull \/ Validate \/ Provide
-Next == Step
+Next == Step \/ NextPass
 Spec == Init /\ [][Next]_vars /\ WF_vars(Next)
 
 (* ---- the property ------------------------------------------------------------------- *)
@@ -89,7 +128,13 @@ OnlyStreamKeys      == Announced \subseteq ToSet(input)
 BatchBound          == \A i \in 1..Len(batches) : Cardinality(batches[i]) <= Eff /\ batches[i] # {}
 AllAllowedAnnounced == pc = "done" => (ToSet(input) \ cfg.bad) \subseteq Announced
 CarryOnlyRejected   == pc \in {"read", "provide", "done"} /\ got = 0 => cids \subseteq cfg.bad
-Terminates          == <>(pc = "done")
+AllDone             == pc = "done" /\ pass = Len(plan) + 1
+Terminates          == <>AllDone
+\* every completed pass announced the full allowed set of its own stream (nothing is skipped
+\* because an earlier pass announced it already) and nothing else
+EveryPassComplete   == \A p \in 1..Len(hist) :
+                          LET ann == UNION {hist[p].batches[k] : k \in 1..Len(hist[p].batches)}
+                          IN  ann = ToSet(hist[p].stream) \ cfg.bad
 
 \* as-built batch size (no clamp): with this definition substituted for Eff, Terminates fails --
 \* used as the non-vacuity control of the liveness check (MCReproviderAsBuilt.cfg)
